@@ -41,7 +41,8 @@ Inductive coll :=
 | CBytes (l : list nat).
 
 Inductive err := EIndex | EMissing | EType.
-Inductive out := OInt (z : Z) | OBool (b : bool) | OFalse | OList (l : list Z).
+Inductive out := OInt (z : Z) | OBool (b : bool) | OFalse | OList (l : list Z)
+               | OKeys (ks : list key) | OPairs (kvs : list (key * Z)).
 Inductive res := RColl (c : coll) | ROut (o : out) | RErr (e : err).
 
 (* an index argument: a number or something that is not a number *)
@@ -63,7 +64,17 @@ Inductive op :=
 (* byte vectors *)
 | OBytesRef (i : idx) | OBytesLen | OBytesAppend (l : list nat) | OBytesSet (i : idx) (x : nat)
 (* whole contents (lists, vectors, strings, bytes) / size (maps, sets) *)
-| OSnap.
+| OSnap
+(* ---- second batch (every registered pure collection primitive the generator covers) *)
+| OListTail (n : idx) | OListDrop (n : idx) | OSecond | OThird | OFirst | ORest | OPushBack (x : Z)
+| OAppend2 (l1 l2 : list Z) | OPrepend (l : list Z) | OMember (x : Z) | OContains (x : Z) | OTryRef (i : idx)
+| OEmptyP
+| OIVPush (x : Z) | OIVPushFront (x : Z) | OIVSet (i : idx) (x : Z) | OIVTake (n : idx) | OIVDrop (n : idx)
+| OIVRest | OIVAppend (l : list Z) | OIVPrepend (l : list Z)
+| OHUnionL (m : list (key * Z)) | OHUnionR (m : list (key * Z)) | OHClear | OHEmptyP | OHKeys | OHValues | OHToList
+| OSUnionL (ks : list key) | OSUnionR (ks : list key) | OSInter (ks : list key) | OSDiff (ks : list key)
+| OSSubset (ks : list key) | OSSuperset (ks : list key) | OSClear | OSToList
+| OStrPrepend (s : list nat) | OStrAppend2 (s1 s2 : list nat) | OBytesPrepend (l : list nat).
 
 (* ---- finite maps / sets as association lists with pairwise distinct keys *)
 Fixpoint mlookup (k : key) (m : list (key * Z)) : option Z :=
@@ -86,6 +97,24 @@ Definition sinsert (k : key) (s : list key) : list key := if smem k s then s els
 Definition map_of (kvs : list (key * Z)) : list (key * Z) :=
   fold_left (fun m kv => minsert (fst kv) (snd kv) m) kvs [].
 Definition set_of (ks : list key) : list key := fold_left (fun s k => sinsert k s) ks [].
+
+(* hash-union: "keeping the values in the left map when the keys exist in both maps" (hashmaps.rs doc) *)
+Definition munion (l r : list (key * Z)) : list (key * Z) :=
+  l ++ filter (fun kv => match mlookup (fst kv) l with Some _ => false | None => true end) r.
+(* hashset-union / -intersection; hashset-difference is the SYMMETRIC difference (hashsets.rs doc:
+   (hashset-difference (hashset 10 20 30) (hashset 20 30 40)) => (hashset 40 10)) *)
+Definition sunion (l r : list key) : list key := fold_left (fun s k => sinsert k s) r l.
+Definition sinter (l r : list key) : list key := filter (fun k => smem k r) l.
+Definition ssymdiff (l r : list key) : list key :=
+  filter (fun k => negb (smem k r)) l ++ filter (fun k => negb (smem k l)) r.
+Definition ssubset (l r : list key) : bool := forallb (fun k => smem k r) l.
+
+(* member: the first tail whose head is the element *)
+Fixpoint member_from (x : Z) (l : list Z) : option (list Z) :=
+  match l with
+  | [] => None
+  | y :: r => if x =? y then Some l else member_from x r
+  end.
 
 (* ---- sequences with index checks *)
 Definition zlen {A} (l : list A) : Z := Z.of_nat (List.length l).
@@ -183,6 +212,64 @@ Definition step (c : coll) (o : op) : res :=
       | Some (Some _) => match i with IZ z => RColl (CBytes (set_nth l (Z.to_nat z) x)) | IBad => RErr EType end
       end
   | CBytes l, OSnap => ROut (OList (zs_of_nats l))
+  (* ---- second batch.  lists.rs: list-tail (usize index: negative = TypeMismatch, past the end = error),
+     list-drop (clamps), second, third, first, rest, push-back, append with several lists, member,
+     list-contains, try-list-ref, empty? *)
+  | CList l, OListTail IBad => RErr EType
+  | CList l, OListTail (IZ n) =>
+      if n <? 0 then RErr EType else if zlen l <? n then RErr EIndex else RColl (CList (skipn (Z.to_nat n) l))
+  | CList l, OListDrop IBad => RErr EType
+  | CList l, OListDrop (IZ n) => if n <? 0 then RErr EType else RColl (CList (skipn (Z.to_nat n) l))
+  | CList l, OSecond => match nth_error l 1 with Some x => ROut (OInt x) | None => RErr EIndex end
+  | CList l, OThird => match nth_error l 2 with Some x => ROut (OInt x) | None => RErr EIndex end
+  | CList l, OFirst => match l with [] => RErr EIndex | x :: _ => ROut (OInt x) end
+  | CList l, ORest => match l with [] => RErr EIndex | _ :: r => RColl (CList r) end
+  | CList l, OPushBack x => RColl (CList (l ++ [x]))
+  | CList l, OAppend2 l1 l2 => RColl (CList (l ++ l1 ++ l2))
+  | CList l, OPrepend l0 => RColl (CList (l0 ++ l))
+  | CList l, OMember x => match member_from x l with Some t => ROut (OList t) | None => ROut OFalse end
+  | CList l, OContains x => ROut (OBool (existsb (Z.eqb x) l))
+  | CList l, OTryRef IBad => RErr EType
+  | CList l, OTryRef (IZ z) =>
+      if z <? 0 then RErr EIndex
+      else match nth_error l (Z.to_nat z) with Some x => ROut (OInt x) | None => ROut OFalse end
+  | CList l, OEmptyP => ROut (OBool (match l with [] => true | _ => false end))
+  (* vectors.rs immutable vectors: push, push-front, set (usize index), take / drop (clamp), rest, append *)
+  | CIVec l, OIVPush x => RColl (CIVec (l ++ [x]))
+  | CIVec l, OIVPushFront x => RColl (CIVec (x :: l))
+  | CIVec l, OIVSet i x =>
+      match ref_at_u l i with
+      | None => RErr EType | Some None => RErr EIndex
+      | Some (Some _) => match i with IZ z => RColl (CIVec (set_nth l (Z.to_nat z) x)) | IBad => RErr EType end
+      end
+  | CIVec l, OIVTake IBad => RErr EType
+  | CIVec l, OIVTake (IZ n) => if n <? 0 then RErr EType else RColl (CIVec (firstn (Z.to_nat n) l))
+  | CIVec l, OIVDrop IBad => RErr EType
+  | CIVec l, OIVDrop (IZ n) => if n <? 0 then RErr EType else RColl (CIVec (skipn (Z.to_nat n) l))
+  | CIVec l, OIVRest => RColl (CIVec (tl l))
+  | CIVec l, OIVAppend l2 => RColl (CIVec (l ++ l2))
+  | CIVec l, OIVPrepend l0 => RColl (CIVec (l0 ++ l))
+  (* hashmaps.rs: hash-union (left wins), hash-clear, hash-empty?, hash-keys->list, hash-values->list, hash->list *)
+  | CMap m, OHUnionL m2 => RColl (CMap (munion m (map_of m2)))
+  | CMap m, OHUnionR m2 => RColl (CMap (munion (map_of m2) m))
+  | CMap m, OHClear => RColl (CMap [])
+  | CMap m, OHEmptyP => ROut (OBool (match m with [] => true | _ => false end))
+  | CMap m, OHKeys => ROut (OKeys (map fst m))
+  | CMap m, OHValues => ROut (OList (map snd m))
+  | CMap m, OHToList => ROut (OPairs m)
+  (* hashsets.rs: union, intersection, (symmetric) difference, subset?, clear, ->list *)
+  | CSet s, OSUnionL ks => RColl (CSet (sunion s (set_of ks)))
+  | CSet s, OSUnionR ks => RColl (CSet (sunion (set_of ks) s))
+  | CSet s, OSInter ks => RColl (CSet (sinter s (set_of ks)))
+  | CSet s, OSDiff ks => RColl (CSet (ssymdiff s (set_of ks)))
+  | CSet s, OSSubset ks => ROut (OBool (ssubset s (set_of ks)))
+  | CSet s, OSSuperset ks => ROut (OBool (ssubset (set_of ks) s))
+  | CSet s, OSClear => RColl (CSet [])
+  | CSet s, OSToList => ROut (OKeys s)
+  (* strings / bytes: n-ary append with the collection in any position *)
+  | CString s, OStrPrepend s0 => RColl (CString (s0 ++ s))
+  | CString s, OStrAppend2 s1 s2 => RColl (CString (s ++ s1 ++ s2))
+  | CBytes l, OBytesPrepend l0 => RColl (CBytes (l0 ++ l))
   (* an operation of another collection kind: not generated; the engine reports a type error *)
   | _, _ => RErr EType
   end.
@@ -211,12 +298,22 @@ Fixpoint digits (fuel : nat) (z : Z) (acc : string) : string :=
 Definition z_str (z : Z) : string := if (z <? 0)%Z then "-" ++ digits 30 (- z) "" else digits 30 z "".
 Fixpoint join (l : list string) : string :=
   match l with [] => "" | [x] => x | x :: r => x ++ " " ++ join r end.
+Fixpoint chars (l : list nat) : string :=
+  match l with [] => "" | c :: r => String (ascii_of_nat c) (chars r) end.
+Definition key_str (k : key) : string :=
+  match k with
+  | KInt z => z_str z
+  | KStr s => String (ascii_of_nat 34) (chars s) ++ String (ascii_of_nat 34) ""
+  | KList l => "(" ++ join (map z_str l) ++ ")"
+  end.
 Definition out_str (o : out) : string :=
   match o with
   | OInt z => z_str z
   | OBool b => if b then "#t" else "#f"
   | OFalse => "#f"
   | OList l => "(" ++ join (map z_str l) ++ ")"
+  | OKeys ks => "(" ++ join (map key_str ks) ++ ")"
+  | OPairs kvs => "(" ++ join (map (fun kv => "(" ++ key_str (fst kv) ++ " " ++ z_str (snd kv) ++ ")") kvs) ++ ")"
   end.
 Definition err_str (e : err) : string :=
   match e with EIndex => "E:Index" | EMissing => "E:Missing" | EType => "E:Type" end.
